@@ -34,6 +34,9 @@ def scen_name(stack, **kw):
     parts = ["stack=" + "-".join(stack)]
     for k in sorted(kw):
         v = kw[k]
+        if k == "solve_for" and v is None:
+            parts.append("solve_for=None")        # explicitly requested default (differs from the scenarios that pass ('tidal',))
+            continue
         if (v is None or v is False) and k not in ("nondim",):
             continue
         if k == "solve_for":
@@ -83,7 +86,14 @@ def scenarios(tier):
             add(st, nondim=nd, entry="wrapper", mismatch=dict(static=0))
             add(st, nondim=nd, entry="wrapper", mismatch=dict(incomp=0))
             add(st, nondim=nd, entry="wrapper", mismatch=dict(upper=0))
-    return out
+    # the same scenario may be reached from several lists: keep one (duplicate obligation ids would get a suffix that no recorded finding matches)
+    seen, uniq = set(), []
+    for stack, kw in out:
+        key_ = (tuple(stack), tuple(sorted((k_, str(v_)) for k_, v_ in kw.items())))
+        if key_ not in seen:
+            seen.add(key_)
+            uniq.append((stack, kw))
+    return uniq
 
 
 def expected_failure(kw, stack):
